@@ -533,6 +533,11 @@ def analysis_check(ctx, hist):
         ctx.count({"t": ta}, nontrivial=True)
         ctx.coverage["obligations"] += 1
         replay = {"text_a": ta, "text_b": tb, "polar_a": ra, "polar_b": rb, "program": p}
+        if any(r.get("error") in ("timeout", "crash") for r in (ra, rb, rd)):
+            # a worker that ran out of time (machine load) decides nothing
+            stat["timeouts"] = stat.get("timeouts", 0) + 1
+            ctx.coverage["obligations"] -= 1
+            continue
         if "goals" not in ra or "goals" not in rb:
             if ("goals" in ra) != ("goals" in rb):
                 ctx.violation("analysis:one-spelling-refused", replay, "one spelling is analysed, the other refused")
